@@ -108,10 +108,15 @@ func Load(repo string, cfg Config) (*Prog, error) {
 	var overlay map[string][]byte
 	var notes []inlineNote
 	var rej []string
-	for round := 1; round <= 4; round++ {
+	for round := 1; round <= 6; round++ {
 		ovDel, ovKeep, ns := planInline(p, overlay, round)
 		if ovDel == nil {
-			break
+			// no helper left to expand: loops over small literal tables (unroll.go)
+			ovU, nsU := planUnroll(p, overlay, round)
+			if ovU == nil {
+				break
+			}
+			ovDel, ovKeep, ns = ovU, ovU, nsU
 		}
 		used := ovDel
 		p2, err2 := loadOnce(repo, cfg, ovDel)
